@@ -88,7 +88,12 @@ class World:
             if kind == "editBCSilent":
                 np.copyto(side.c, u)
             else:
-                how = self.rng.choice(["assign-c", "slice-c", "fixedValue", "fixedGradient", "newton", "assign-ab", "noflux+c", "toggle-periodic", "toggle-periodic"])
+                how = self.rng.choice(["assign-c", "slice-c", "fixedValue", "fixedGradient", "newton", "assign-ab", "noflux+c", "toggle-periodic", "toggle-periodic", "tiny"])
+                if how == "tiny":
+                    # a whole-array re-assignment that changes the value by less than any sensible float tolerance (slow ramp):
+                    # still an edit, the next solve must see it
+                    side.c = np.asarray(side.c, dtype=float) + 2.0 ** -30
+                    return "none", None
                 if how == "toggle-periodic":
                     # only the high side of the last axis is ever toggled (so every toggle changes the behaviour), never a radial axis
                     ax = self.mc.dim - 1
